@@ -124,3 +124,14 @@ TEXT['C11'].update(
     level_note='Hypotheses from other properties: cmp laws and the sort contract (C07), dict-level column lookup (C01). One obligation per function is a syntactic check '
                'of the iteration source on the AST. Trusted: VC generator, list/array axioms, z3/cvc5.',
     technique='contract-based deductive verification (AST-generated VCs, loop invariants, z3/cvc5) + bounded run-time contract check')
+
+PROPS['C20'].update(level='other', explanation='Deductive (counted as proved): in perdictable._value_output the expiry flag of a row is false exactly for an expiry strictly '
+    'before today, the value of a row is f(row) when the row is flagged (missing value or not expired) and the previously computed value otherwise, and f has one '
+    'evaluation site per row, guarded by exactly that flag. Bounded only: join(inputs, on, defaults) (a composition of dictable.join / xor / sort), scalar-only calls, '
+    'run_if_none, _dict_output, output assembly.')
+TEXT['C20'].update(
+    level_text='Mixed: the gating that decides which rows are (re)computed - the part of the property about call counts, which tests cannot observe for all '
+               'expiry assignments - is proved from the two real comprehensions; the keyed join itself is bounded, so the claim is "other".',
+    level_note='Model: a non-None expiry is a datetime compared with a symbolic today; f is an uninterpreted function of the row. Callee contracts: row iteration (C01), '
+               'Dict.__getitem__(callable) (C16). Two obligations are syntactic (run_expiry feeds the gate; a single evaluation site of f).',
+    technique='contract-based deductive verification (AST-generated VCs, z3/cvc5) + bounded run-time contract check')
